@@ -409,7 +409,14 @@ macro_rules! path_attributes {
                     }
                     PathAttribute::Invalid(flags, tc, val) => {
                         debug!("composing invalid path attribute {tc}");
-                        target.append_slice(&[flags.0 | Flags::PARTIAL, *tc])?;
+                        // the extended length flag has to match the length
+                        // encoding chosen below
+                        let flags = if val.len() > 255 {
+                            flags.0 | Flags::PARTIAL | Flags::EXTENDED_LEN
+                        } else {
+                            (flags.0 | Flags::PARTIAL) & !Flags::EXTENDED_LEN
+                        };
+                        target.append_slice(&[flags, *tc])?;
                         if val.len() > 255 {
                             target.append_slice(&u16::try_from(val.len()).unwrap_or(u16::MAX).to_be_bytes())?;
                         } else {
@@ -2269,7 +2276,13 @@ impl UnimplementedPathAttribute {
     {
         let len = self.value().len();
         // We did not recognize this attribute, so we set the Partial flag.
-        let flags = self.flags() | Flags::PARTIAL;
+        // The extended length flag follows the actual length of the value,
+        // as compose_len() does.
+        let flags = if len > 255 {
+            self.flags() | Flags::PARTIAL | Flags::EXTENDED_LEN
+        } else {
+            Flags((self.flags().0 | Flags::PARTIAL) & !Flags::EXTENDED_LEN)
+        };
         target.append_slice(
             &[flags.into(), self.type_code()]
         )?;
